@@ -78,11 +78,17 @@ def gen_cases(ctx):
                       "ab": [rng.choice(COEFS), rng.choice(COEFS)], "seed": rng.randrange(10**6)})
     for n in range(1 if ctx.quick else 6):
         cfg = Y.pipeline_scene(rng)
+        # tensor slab z in [c2, c2 + 2); the only plane-type source sits on the plane z = c2 - 1 in isotropic background
+        # (the library refuses plane / Gaussian sources inside anisotropic material); the other sources become dipoles
         c2 = cfg["shape"][2] // 2
-        cfg["slab"] = {"lo": [0, 0, c2 - 1], "hi": [cfg["shape"][0], cfg["shape"][1], c2 + 1], "eps": [[2.2, 0.3, 0.1], [0.3, 2.0, 0.2], [0.1, 0.2, 2.5]]}
-        ax = 2
-        cfg["sources"][0] = {"kind": "plane", "name": "s0", "wl": 500e-9, "amp": 1.0, "switch": {}, "profile": "single", "axis": ax,
-                             "at": c2 - 2, "dir": "+", "pol": rng.choice([0, 1])}
+        cfg["slab"] = {"lo": [0, 0, c2], "hi": [cfg["shape"][0], cfg["shape"][1], c2 + 2], "eps": [[2.2, 0.3, 0.1], [0.3, 2.0, 0.2], [0.1, 0.2, 2.5]]}
+        cfg["sources"][0] = {"kind": "plane", "name": "s0", "wl": 500e-9, "amp": 1.0, "switch": {}, "profile": "single", "axis": 2,
+                             "at": c2 - 1, "dir": "+", "pol": rng.choice([0, 1])}
+        for k in range(1, len(cfg["sources"])):
+            if cfg["sources"][k]["kind"] in ("plane", "gauss"):
+                old_s = cfg["sources"][k]
+                cfg["sources"][k] = {"kind": rng.choice(["dipole", "mdipole"]), "name": old_s["name"], "wl": old_s["wl"], "amp": old_s["amp"], "switch": old_s["switch"],
+                                     "profile": old_s["profile"], "pos": [cfg["shape"][0] // 2, cfg["shape"][1] // 2, c2 + 1], "pol": rng.randrange(3)}
         fa = [rng.choice([0.5, -1.5, 3.0]) for _ in cfg["sources"]]
         fb = [rng.choice([-0.75, 2.0]) for _ in cfg["sources"]]
         cases.append({"id": f"p-tensor{n}-{'x'.join(map(str, cfg['shape']))}-k{'.'.join(map(str, cfg['kinds']))}-pml{len(cfg['pml_faces'])}", "mode": "pipeline", "cfg": cfg,
@@ -103,7 +109,7 @@ def _with_factors(cfg, f):
     return c
 
 
-def observe(case):
+def _observe(case):
     import jax
     import jax.numpy as jnp
     import numpy as np
@@ -186,6 +192,12 @@ def observe(case):
     rec["nonzero"] = bool(np.max(np.abs(Ec)) > 0 and all(np.max(np.abs(Dc[dn][k])) > 0 for dn in Dc for k in Dc[dn]))
     rec["n_mons"] = len(rec["mons"])
     return rec
+
+
+def observe(case):
+    from harness import yee_sys as Y
+
+    return Y.safe_observe(_observe, case, "linear", TOL)
 
 
 def classify(rec, verdict):
